@@ -99,6 +99,25 @@ def cover_part(ctx: Ctx, quick: bool) -> None:
             if "error" in lr:
                 ctx.broken_ties.append(f"model driver: {lr['error']}")
                 continue
+            # process_missing_and_gates: OR over the cover members (leaf or AND of its events) when a cover is
+            # returned, the OR over the plain events otherwise — `rebuilt` of the model
+            tr = rp["trees"][j]
+            if isinstance(tr, dict):
+                ctx.violation(f"process_missing_and_gates raised {tr['error']}", {"input": inp}, key=("pmag", sets, uni))
+                continue
+            want_tree = (sorted(got) if got is not None else sorted([x] for x in uni)) + ["O"]
+            if tr != want_tree and got is not None and len(rp["results"]) > 0:
+                # the caller computes its own cover (another choice of max is possible): it must be a model outcome
+                outs0 = [sorted(sorted(x) for x in o) + ["O"] for o in lr.get("outcomes", []) if o is not None]
+                if tr not in outs0:
+                    ctx.violation("correspondence: process_missing_and_gates does not build OR(AND(group)…) from a cover "
+                                  "of the model", {"input": inp, "impl": tr, "model": outs0[:6]},
+                                  key=("corrpmag", sets, uni), concrete=False)
+            elif tr != want_tree:
+                outs0 = [sorted(sorted(x) for x in o) + ["O"] for o in lr.get("outcomes", []) if o is not None]
+                if tr not in outs0:
+                    ctx.violation("correspondence: process_missing_and_gates rebuilt the OR although the cover step "
+                                  "returns None", {"input": inp, "impl": tr}, key=("corrpmag", sets, uni), concrete=False)
             outs = [None if o is None else sorted(sorted(x) for x in o) for o in lr["outcomes"]]
             if got not in outs:
                 ctx.violation("correspondence: get_weighted_cover's answer is not among the outcomes of the Lean model",
